@@ -693,10 +693,16 @@ impl Xot {
 
         let clone = self.clone_node(node);
         // add any prefixes from outer scope we may need
-        if self.is_element(clone) {
+        if let Some(element) = self.element(clone) {
+            // an element in no namespace cannot declare a default namespace
+            let in_no_namespace = self.namespace_for_name(element.name()) == self.no_namespace();
+            let empty_prefix = self.empty_prefix();
             let mut namespaces = self.namespaces_mut(clone);
             for (prefix, ns) in prefixes {
                 if namespaces.contains_key(prefix) {
+                    continue;
+                }
+                if in_no_namespace && prefix == empty_prefix {
                     continue;
                 }
                 namespaces.insert(prefix, ns);
